@@ -425,6 +425,10 @@ class Flow:
             if base.path == "self":
                 if attr in self.self_attrs:
                     return self.self_attrs[attr]
+                if self.self_cls:
+                    found, val = self.repo.class_const(self.self_cls, attr)  # a class-level constant, through the MRO
+                    if found and (isinstance(val, (bool, int, str)) or val is None):
+                        return val
                 if self.self_cls and self.repo.resolve_method(self.self_cls, attr):
                     return Bound(base, attr)
                 return self.named_opq(p)
@@ -793,8 +797,11 @@ class Flow:
                         fn = self.repo.mod(other).functions().get(imp[1])
                         if fn is not None:
                             return self.inline(st, fn, _NO_RECV, args, kw or {}, name, self.repo.mod(other).constants())
-        if any(isinstance(a, PathRef) and a.path == "state" for a in args):
+        if any(isinstance(a, PathRef) and a.path in ("state", "state.user_stack", "state.rule_stack", "state.tag_stack", "state.atomic_depth") for a in args):
             raise self.unsupported(f"call {name}(...) receives the parser state")
+        if any(isinstance(a, LRef) for a in args) and name not in ("len", "list", "tuple", "iter", "reversed", "enumerate", "bool", "Pairs", "print", "repr", "str", "id"):
+            # a pair list handed to a function this analysis cannot follow: what it appends or removes would be lost
+            raise self.unsupported(f"call {name}(...) receives a pair list and cannot be followed")
         return [(st, Opq(ast.unparse(node)[:40]))]
 
     def isinstance_of(self, st: St, v: object, node: ast.Call) -> object:
